@@ -11,9 +11,9 @@ func init() {
 }
 
 func checkC07(r *Run) {
-	r.Rule("R1", "one predicate: every branch decision of the prefix/if/else-if/infix evaluators that depends on an evaluated template value obtains it through the truthiness predicate (licensed: the nil-operand dispatch and the operand type switch of the infix evaluator)", 6)
-	r.Rule("R2", "falsy set of the predicate: nil, false, \"\", empty template.HTML, nil pointer -- nothing more, nothing less; comparisons only in single-type arms", 6)
-	r.Rule("R3", "branch selection: main block only on the truthy edge and returned at once; else-ifs visited by one ascending range, condition and block of the same element, first truthy returns; else block only after the loop", 4)
+	r.Rule("R1", "one predicate: every branch decision of the prefix/if/else-if/infix evaluators that depends on an evaluated template value obtains it through the truthiness predicate (licensed: the nil-operand dispatch and the operand type switch of the infix evaluator)", 1)
+	r.Rule("R2", "falsy set of the predicate: nil, false, \"\", empty template.HTML, nil pointer -- nothing more, nothing less; comparisons only in single-type arms", 1)
+	r.Rule("R3", "branch selection: main block only on the truthy edge and returned at once; else-ifs visited by one ascending range, condition and block of the same element, first truthy returns; else block only after the loop", 1)
 	truthyUseRule(r, "R1")
 	falsySetRuleSSA(r, "R2")
 	branchSelectionRule(r, "R3")
